@@ -274,6 +274,29 @@ func (a *c09An) flow(fn *ssa.Function, s int, st []c09Frame) *summary {
 				if len(st) > 0 {
 					at = a.w.relFile(st[0].site.Pos())
 				}
+				if cls == clsBA || cls == clsPA {
+					// the array region must receive exactly the bytes the array encoder produced (the same bytes the
+					// header's array CRC covers and the array-sector arithmetic assumes): no padding, no re-slicing
+					dv := args[0]
+					for i := 0; i < 8; i++ {
+						vs, ok := env[stripConv(dv)]
+						if !ok || len(vs) != 1 {
+							break
+						}
+						dv = vs[0]
+					}
+					exact := false
+					switch x := stripConv(dv).(type) {
+					case *ssa.Extract:
+						if cl, ok := x.Tuple.(*ssa.Call); ok && cl.Call.StaticCallee() == a.roles.arrayEnc {
+							exact = true
+						}
+					case *ssa.Call:
+						exact = x.Call.StaticCallee() == a.roles.arrayEnc
+					}
+					a.r.Check(exact, "C09-a", fname, "write "+cls.String()+" carries the encoder's array bytes unchanged", at, "",
+						"the entries-array region is written from a value that is not exactly the array encoder's result ("+shortVal(dv)+"): its length no longer matches the array-sector arithmetic and the CRC'd bytes")
+				}
 				if cls == clsNone {
 					a.r.Fail("C09-a", fname, "write#"+why, at, "device write whose data/offset provenance fits no region class or whose data and offset belong to different sides: "+why)
 				} else {
